@@ -40,8 +40,10 @@ type GuardSpec struct {
 }
 
 type acceptRet struct {
-	ret *ssa.Return
-	val ssa.Value // deciding result value (nil for AcceptAny)
+	ret  *ssa.Return
+	val   ssa.Value // deciding result value (nil for AcceptAny)
+	kind  AcceptKind
+	deleg []string // statements carried by a delegating return, conditionals resolved (see fillDelegations)
 }
 
 func resultIndex(fn *ssa.Function, kind AcceptKind) int {
@@ -53,7 +55,7 @@ func resultIndex(fn *ssa.Function, kind AcceptKind) int {
 				return i
 			}
 		}
-	case AcceptTrueBool:
+	case AcceptTrueBool, AcceptFalseBool:
 		for i := 0; i < res.Len(); i++ {
 			if b, ok := res.At(i).Type().Underlying().(*types.Basic); ok && b.Kind() == types.Bool {
 				return i
@@ -139,6 +141,10 @@ func mayBeNilErr(v ssa.Value, at *ssa.BasicBlock, depth int) bool {
 		return x.Value == nil
 	case *ssa.MakeInterface:
 		return false
+	case *ssa.Parameter:
+		if isErrorType(x.Type()) && paramNeverNilError(x) {
+			return false // a sentinel handed in by every caller of this unexported helper
+		}
 	case *ssa.UnOp:
 		if x.Op == token.MUL {
 			if _, ok := x.X.(*ssa.Global); ok {
@@ -160,6 +166,21 @@ func mayBeNilErr(v ssa.Value, at *ssa.BasicBlock, depth int) bool {
 		return false
 	}
 	if knownNonNilAt(v, at) {
+		return false
+	}
+	return true
+}
+
+func mayBeFalse(v ssa.Value, depth int) bool {
+	if b, ok := constBool(v); ok {
+		return !b
+	}
+	if p, ok := v.(*ssa.Phi); ok && depth < 8 {
+		for _, e := range p.Edges {
+			if mayBeFalse(e, depth+1) {
+				return true
+			}
+		}
 		return false
 	}
 	return true
@@ -201,22 +222,26 @@ func acceptReturns(fn *ssa.Function, kind AcceptKind) ([]acceptRet, error) {
 			continue // recover block: not reachable by normal control flow
 		}
 		if kind == AcceptAny {
-			out = append(out, acceptRet{ret, nil})
+			out = append(out, acceptRet{ret: ret, kind: kind})
 			continue
 		}
 		v := retValue(ret, idx)
 		switch kind {
 		case AcceptNilErr:
 			if mayBeNilErr(v, b, 0) {
-				out = append(out, acceptRet{ret, v})
+				out = append(out, acceptRet{ret: ret, val: v, kind: kind})
 			}
 		case AcceptTrueBool:
 			if mayBeTrue(v, 0) {
-				out = append(out, acceptRet{ret, v})
+				out = append(out, acceptRet{ret: ret, val: v, kind: kind})
+			}
+		case AcceptFalseBool:
+			if mayBeFalse(v, 0) {
+				out = append(out, acceptRet{ret: ret, val: v, kind: kind})
 			}
 		case AcceptNonNilPtr:
 			if !isNilConst(v) {
-				out = append(out, acceptRet{ret, v})
+				out = append(out, acceptRet{ret: ret, val: v, kind: kind})
 			}
 		}
 	}
